@@ -68,6 +68,7 @@ structure Inst where
   seen : List (Nat × Val) := []        -- records this instance has read (revision, value)
   acked : List (Nat × Nat) := []       -- (token, revision) of its acknowledged acquiring writes not yet claimed
   stopDel : Option Nat := none         -- the StopWithContext{DeleteKey} call in progress (api number)
+  stopOwner : Bool := false           -- that call found the instance leading, or an acquiring write of it was acknowledged since
   deriving Repr, Inhabited
 
 structure State where
@@ -157,9 +158,9 @@ def stepCall (s : State) (t op i : Nat) (kind : OpKind) (key : String) (exp : Na
         else reject s!"Update by {i} (exp {exp}, token {tok}) is neither its heartbeat (term {repr x.lead}) nor an allowed takeover"
       | _ => reject s!"Update by {i} with a non-canonical payload"
     | .delete =>
-      if x.stopDel.isSome then
+      if x.stopDel.isSome ∧ x.stopOwner then
         pure (s.addOp { id := op, inst := i, purpose := .delete, key := key, exp := 0, val := .empty, issued := t })
-      else reject s!"Delete by {i} outside StopWithContext(DeleteKey)"
+      else reject s!"Delete by {i} outside a StopWithContext(DeleteKey) that found it leading (or acquiring)"
     | _ => pure (s.addOp { id := op, inst := i, purpose := .other, key := key, exp := 0, val := .empty, issued := t })
 
 /-- The store applies a write of instance `p.inst` (ghost history and token bookkeeping included). -/
@@ -216,12 +217,12 @@ def stepRet (s : State) (t op : Nat) (r : Ret) : R State :=
       | .create, .ok rev _ =>
         if p.applied ≠ some (some rev) then reject s!"op {op} acknowledged at {rev} but applied {repr p.applied}"
         else match valTok p.val with
-          | some tok => pure (s1.setInst { x with acked := (tok, rev) :: x.acked })
+          | some tok => pure (s1.setInst { x with acked := (tok, rev) :: x.acked, stopOwner := x.stopOwner || x.stopDel.isSome })
           | none => pure s1
       | .takeover, .ok rev _ =>
         if p.applied ≠ some (some rev) then reject s!"op {op} acknowledged at {rev} but applied {repr p.applied}"
         else match valTok p.val with
-          | some tok => pure (s1.setInst { x with acked := (tok, rev) :: x.acked })
+          | some tok => pure (s1.setInst { x with acked := (tok, rev) :: x.acked, stopOwner := x.stopOwner || x.stopDel.isSome })
           | none => pure s1
       | .heartbeat, .ok rev _ =>
         if p.applied ≠ some (some rev) then reject s!"op {op} acknowledged at {rev} but applied {repr p.applied}"
@@ -290,7 +291,7 @@ def step (s : State) (te : TEv) : R State :=
   | .flag i _ il tok _ => stepFlag s i il tok
   | .api n i (.stopctx del _ _ _) =>
     match s.insts i with
-    | some x => pure (s.setInst { x with stopDel := if del then some n else x.stopDel })
+    | some x => pure (s.setInst { x with stopDel := if del then some n else x.stopDel, stopOwner := if del then x.lead.isSome else x.stopOwner })
     | none => pure s
   | .apiRet n i _ =>
     -- a returning StopWithContext ends its deletion window
